@@ -125,3 +125,222 @@ Example extract_instance :
   let s := run es chunk_each false true (concat (repeat [2; 0; 1] 20)) (init [] None 3) in
   finished es s = true /\ scounts s = (2, 2, 1) /\ sresume s = Some 4.
 Proof. exact extract_example. Qed.
+
+(* ------------------------------------------------------------------------------------------ *)
+(** * C19's file-system model refines the general filesystem model of C06
+
+    The association-list model inside [Arch/Zip.v] and the general model [FS/{Tree,Ops}.v] (C06)
+    were written independently; [Compose/FSAgree.v] relates them inside Coq, so that only the
+    general model need be trusted as a description of Linux for the inputs of this property.
+
+    Vocabulary ([Compose/FSAgree.v]; [Zi] = Arch.Zip, [Gt] = FS.Tree, [Go] = FS.Ops):
+    [zip_tree f]: the abstraction (names are numbers in both models; the directory extracted
+    into is the root [[]] of the general model; a link destination [list N] becomes that list of
+    names); [zip_sim f T]: [T] equals [zip_tree f] as a finite map; [zip_wf f]: [f] is a tree;
+    [zip_link_above f p]: some proper prefix of [p] is a link (there Arch/Zip answers "error"
+    where Linux follows the link - its documented limit, no entry of an archive made from a tree
+    lies below a link); [zip_agree r g]: both fail, or both succeed with the same tree (Arch/Zip
+    has no errno); helpers return (succeeded?, tree) resp. (errno of the failing call, tree) -
+    the tree as the calls before the failing one left it - compared by [zip_agree_helper].
+    [zip_mkdir] / [zip_symlink] / [zip_copyfile] are archiver.Mkdir / Symlink / CopyFile as one
+    worker runs them ([zip_worker_runs_helper]); [gen_mkdir] / [gen_symlink] / [gen_copyfile]
+    the same Go functions over the general model (CopyFile: open_trunc, then the Write calls
+    through the descriptor at advancing offsets). *)
+From Wharf Require Import Compose.FSAgree.
+From Wharf Require Compose.FSAgreeZipProofs Compose.FSAgreeZipJobProofs Compose.FSAgreeDiffer.
+
+(** archiver.Mkdir = Lstat; unless a directory: Remove (when something is there), MkdirAll *)
+Theorem zip_mkdir_refines :
+  forall (f : Zi.fs) (T : Gt.tree) (p : Zi.path),
+    zip_wf f -> zip_sim f T -> p <> [] -> zip_link_above f p = false ->
+    zip_agree_helper (zip_mkdir p f) (gen_mkdir p T) /\ zip_wf (snd (zip_mkdir p f)).
+Proof. exact FSAgreeZipProofs.zip_mkdir_refines_lemma. Qed.
+Print Assumptions zip_mkdir_refines.
+
+(** archiver.Symlink = RemoveAll; MkdirAll(dir); Symlink *)
+Theorem zip_symlink_refines :
+  forall (f : Zi.fs) (T : Gt.tree) (p : Zi.path) (dest : list N),
+    zip_wf f -> zip_sim f T -> p <> [] -> zip_link_above f p = false ->
+    zip_agree_helper (zip_symlink p dest f) (gen_symlink p (map Gt.Nm dest) T) /\ zip_wf (snd (zip_symlink p dest f)).
+Proof. exact FSAgreeZipProofs.zip_symlink_refines_lemma. Qed.
+Print Assumptions zip_symlink_refines.
+
+(** archiver.CopyFile = RemoveAll; MkdirAll(dir); OpenFile(O_CREATE|O_TRUNC|O_WRONLY); the
+    Write calls of io.Copy, for any slicing [chunks] of the content *)
+Theorem zip_copyfile_refines :
+  forall (f : Zi.fs) (T : Gt.tree) (p : Zi.path) (chunks : list (list N)),
+    zip_wf f -> zip_sim f T -> p <> [] -> zip_link_above f p = false ->
+    zip_agree_helper (zip_copyfile p chunks f) (gen_copyfile p chunks T) /\ zip_wf (snd (zip_copyfile p chunks f)).
+Proof. exact FSAgreeZipProofs.zip_copyfile_refines_lemma. Qed.
+Print Assumptions zip_copyfile_refines.
+
+(** The primitives.  RemoveAll needs one more hypothesis (no regular file strictly above the
+    path): that is the input class on which the two models differ ([zip_remove_all_differs]). *)
+Theorem zip_fs_remove_all_refines :
+  forall (f : Zi.fs) (T : Gt.tree) (p : Zi.path),
+    zip_wf f -> zip_sim f T -> p <> [] -> zip_link_above f p = false -> zip_file_above f p = false ->
+    zip_agree (Zi.fs_remove_all p f) (Go.remove_all T p).
+Proof. exact FSAgreeZipProofs.zip_fs_remove_all_refines_lemma. Qed.
+Print Assumptions zip_fs_remove_all_refines.
+
+(** MkdirAll: no link at or above the path (the last component is followed too); also for the
+    empty path (the parent of a top-level entry) *)
+Theorem zip_fs_mkdir_all_refines :
+  forall (f : Zi.fs) (T : Gt.tree) (p : Zi.path),
+    zip_wf f -> zip_sim f T -> (forall q, In q (inits p) -> zip_is_link f q = false) ->
+    zip_agree (Zi.fs_mkdir_all p f) (Go.mkdir_all T p) /\
+    (forall f', Zi.fs_mkdir_all p f = Some f' -> zip_wf f' /\ FSAgreeZipProofs.mkdir_spec f f' p).
+Proof. exact FSAgreeZipProofs.zip_fs_mkdir_all_refines_lemma. Qed.
+Print Assumptions zip_fs_mkdir_all_refines.
+
+Theorem zip_fs_symlink_refines :
+  forall (f : Zi.fs) (T : Gt.tree) (p : Zi.path) (dest : list N),
+    zip_wf f -> zip_sim f T -> p <> [] -> zip_link_above f p = false ->
+    zip_agree (Zi.fs_symlink p dest f) (Go.symlink T (map Gt.Nm dest) p) /\
+    (forall f', Zi.fs_symlink p dest f = Some f' -> zip_wf f').
+Proof. exact FSAgreeZipProofs.zip_fs_symlink_refines_lemma. Qed.
+Print Assumptions zip_fs_symlink_refines.
+
+(** open(O_CREATE|O_TRUNC|O_WRONLY) of a path that is not itself a link: the descriptor is the path *)
+Theorem zip_fs_create_refines :
+  forall (f : Zi.fs) (T : Gt.tree) (p : Zi.path),
+    zip_wf f -> zip_sim f T -> p <> [] -> zip_link_above f p = false -> zip_is_link f p = false ->
+    match Zi.fs_create p f, Go.open_trunc T p with
+    | Some f', Go.Ok (T', q) => q = p /\ zip_sim f' T' /\ zip_wf f' /\ Zi.lookup f' p = Some (Zi.File [])
+    | None, Go.Err _ => True
+    | _, _ => False
+    end.
+Proof. exact FSAgreeZipProofs.zip_fs_create_refines_lemma. Qed.
+Print Assumptions zip_fs_create_refines.
+
+(** one Write call: Arch/Zip appends to the file found at the path, the general model writes
+    at the descriptor's offset - the same when the descriptor is the path and the offset is
+    the length written so far (as in CopyFile, where nothing else touches the file) *)
+Theorem zip_fs_append_refines :
+  forall (f : Zi.fs) (T : Gt.tree) (p : Zi.path) (c : list N), zip_sim f T -> p <> [] ->
+    match Zi.fs_append p c f with
+    | Some f' => exists d, Zi.lookup f p = Some (Zi.File d) /\ Zi.lookup f' p = Some (Zi.File (d ++ c)) /\
+                           zip_sim f' (Go.write_at_fd T p (length d) c)
+    | None => forall d, Gt.node_at T p <> Some (Gt.File d)
+    end.
+Proof. exact FSAgreeZipProofs.zip_fs_append_refines_lemma. Qed.
+Print Assumptions zip_fs_append_refines.
+
+(** os.Remove as archiver.Mkdir uses it: on something that is not a directory (or is absent);
+    on an empty directory the models differ ([zip_remove_dir_differs]) *)
+Theorem zip_fs_remove_refines :
+  forall (f : Zi.fs) (T : Gt.tree) (p : Zi.path),
+    zip_wf f -> zip_sim f T -> p <> [] -> zip_link_above f p = false -> Zi.lookup f p <> Some Zi.Dir ->
+    zip_agree (Zi.fs_remove p f) (Go.remove T p) /\
+    (forall f', Zi.fs_remove p f = Some f' -> f' = Zi.del f p /\ zip_wf f').
+Proof. exact FSAgreeZipProofs.zip_fs_remove_refines_lemma. Qed.
+Print Assumptions zip_fs_remove_refines.
+
+(** os.Lstat as archiver.Mkdir uses it ([MLstat] = [lookup]): the node, or some error *)
+Theorem zip_lstat_refines :
+  forall (f : Zi.fs) (T : Gt.tree) (p : Zi.path),
+    zip_wf f -> zip_sim f T -> p <> [] -> zip_link_above f p = false ->
+    match Zi.lookup f p, Go.lstat T p with
+    | Some n, Go.Ok n' => n' = zip_node n
+    | None, Go.Err _ => True
+    | _, _ => False
+    end.
+Proof. exact FSAgreeZipProofs.zip_lstat_refines_lemma. Qed.
+Print Assumptions zip_lstat_refines.
+
+(** Summary.  [zip_calls f cs]: the helper calls [cs] one after the other in Arch/Zip (per call:
+    succeeded?), [gen_calls T cs]: the same in the general model (per call: errno of the failing
+    system call or none); [zip_calls_ok f cs]: every call has a non-empty path with no link
+    strictly above it in the state in which it runs.  Same success / failure for every call,
+    same final tree (as finite maps), again well-formed - from any general state standing for
+    [f], in particular [zip_tree f] ([zipfs_refines_fs_image]). *)
+Theorem zipfs_refines_fs :
+  forall (cs : list zip_call) (f : Zi.fs) (T : Gt.tree) (bs : list bool) (f' : Zi.fs),
+    zip_wf f -> zip_sim f T -> zip_calls_ok f cs = true -> zip_calls f cs = (bs, f') ->
+    exists es T', gen_calls T cs = (es, T') /\ bs = map errno_is_none es /\ zip_sim f' T' /\ zip_wf f'.
+Proof. exact FSAgreeZipProofs.zipfs_refines_fs_lemma. Qed.
+Print Assumptions zipfs_refines_fs.
+
+Theorem zipfs_refines_fs_image :
+  forall (f : Zi.fs) (cs : list zip_call) (bs : list bool) (f' : Zi.fs),
+    zip_wf f -> zip_calls_ok f cs = true -> zip_calls f cs = (bs, f') ->
+    exists es T', gen_calls (zip_tree f) cs = (es, T') /\ bs = map errno_is_none es /\
+                  tree_equiv (zip_tree f') T' /\ zip_wf f'.
+Proof. exact FSAgreeZipProofs.zipfs_refines_fs_image. Qed.
+Print Assumptions zipfs_refines_fs_image.
+
+(** The helper calls are what the pool of [Arch/Zip.v] does: a worker [t] holding the
+    micro-steps [job i e] of entry [e] and scheduled [length (job i e)] times in a row (no other
+    worker in between), in a state without failure, leaves the tree and the failure flag of
+    the helper call for [e] (Mkdir for a directory, CopyFile over [chunk d] for a file, Symlink
+    for a link) - for any entries, chunking, unchanged / repaired code.  Interleavings of several
+    workers mix the system calls of different helpers; for those the primitives above apply
+    step by step. *)
+Theorem zip_worker_runs_helper :
+  forall (entries : list entry) (chunk : list N -> list (list N)) (racy wmark : bool)
+         (s : state) (t : nat) (w : worker) (i : nat) (e : entry),
+    serr s = false -> nth_error (sworkers s) t = Some w -> wops w = job chunk racy i e ->
+    let s' := run entries chunk racy wmark (repeat t (length (job chunk racy i e))) s in
+    let r := zip_call_step (sfs s) (call_of_entry chunk e) in
+    sfs s' = snd r /\ serr s' = negb (fst r).
+Proof. exact FSAgreeZipJobProofs.zip_worker_runs_helper_lemma. Qed.
+Print Assumptions zip_worker_runs_helper.
+
+Theorem zip_wf_decidable : forall f, zip_wfb f = true -> zip_wf f.
+Proof. exact FSAgreeZipProofs.zip_wfb_sound. Qed.
+Print Assumptions zip_wf_decidable.
+
+(** non-vacuity: nine helper calls (Mkdir over a file, CopyFile in three writes, Symlink over a
+    directory, failing calls below a file) on a tree with files, a directory and links *)
+Example zipfs_refines_fs_inhabited :
+  zip_wfb FSAgreeDiffer.zip_demo_tree = true /\
+  zip_calls_ok FSAgreeDiffer.zip_demo_tree FSAgreeDiffer.zip_demo_calls = true /\
+  fst (zip_calls FSAgreeDiffer.zip_demo_tree FSAgreeDiffer.zip_demo_calls)
+    = map errno_is_none (fst (gen_calls (zip_tree FSAgreeDiffer.zip_demo_tree) FSAgreeDiffer.zip_demo_calls)) /\
+  Gt.tree_eqb (zip_tree (snd (zip_calls FSAgreeDiffer.zip_demo_tree FSAgreeDiffer.zip_demo_calls)))
+              (snd (gen_calls (zip_tree FSAgreeDiffer.zip_demo_tree) FSAgreeDiffer.zip_demo_calls)) = true /\
+  fst (zip_calls FSAgreeDiffer.zip_demo_tree FSAgreeDiffer.zip_demo_calls) = [true; true; true; true; false; true; true; false; false].
+Proof. exact FSAgreeDiffer.zipfs_refines_fs_instance. Qed.
+
+(** Where the models DIFFER on inputs both accept (well-formed state, no link involved).
+    (1) os.RemoveAll of a path below a regular file: Arch/Zip succeeds, the general model says
+    ENOTDIR.  Go/Linux (observed): ENOTDIR - Arch/Zip is wrong.  Harmless for the helpers: Symlink
+    and CopyFile fail one call later (MkdirAll of the parent) with the same tree, which is why
+    [zip_symlink_refines] / [zip_copyfile_refines] need no such hypothesis. *)
+Theorem zip_remove_all_differs :
+  let f := [([2%N], File [7%N])] in
+  zip_wfb f = true /\ zip_link_above f [2%N; 1%N] = false /\ zip_file_above f [2%N; 1%N] = true /\
+  fs_remove_all [2%N; 1%N] f = Some f /\
+  Go.remove_all (zip_tree f) [2%N; 1%N] = Go.Err Go.ENOTDIR /\
+  zip_symlink [2%N; 1%N] [9%N] f = (false, f) /\
+  gen_symlink [2%N; 1%N] [Gt.Nm 9%N] (zip_tree f) = (Some Go.ENOTDIR, zip_tree f).
+Proof.
+  exact (conj (proj1 FSAgreeDiffer.zip_remove_all_differ)
+        (conj (proj1 (proj2 FSAgreeDiffer.zip_remove_all_differ))
+        (conj (proj1 (proj2 (proj2 FSAgreeDiffer.zip_remove_all_differ)))
+        (conj (proj1 (proj2 (proj2 (proj2 FSAgreeDiffer.zip_remove_all_differ))))
+        (conj (proj2 (proj2 (proj2 (proj2 FSAgreeDiffer.zip_remove_all_differ))))
+              FSAgreeDiffer.zip_symlink_below_file_agree))))).
+Qed.
+Print Assumptions zip_remove_all_differs.
+
+(** (2) os.Remove of an empty directory: Arch/Zip fails ("directory: error"), the general model
+    and Go/Linux remove it.  Outside archiver.Mkdir's use of Remove (only after Lstat has seen a
+    non-directory) Arch/Zip is wrong; with pairwise distinct entry paths no other helper turns
+    that path into a directory between the Lstat and the Remove, so this looks unreachable from
+    the pool (not proved). *)
+Theorem zip_remove_dir_differs :
+  let f := [([2%N], Dir)] in
+  zip_wfb f = true /\ fs_remove [2%N] f = None /\ Go.remove (zip_tree f) [2%N] = Go.Ok [].
+Proof. exact FSAgreeDiffer.zip_remove_dir_differ. Qed.
+Print Assumptions zip_remove_dir_differs.
+
+(** (3) by design: a link strictly above the path (Linux follows it: MkdirAll(2/3) creates 1/3
+    when 2 -> 1), and the empty path (the directory extracted into). *)
+Theorem zip_link_above_differs :
+  let f := [([1%N], Dir); ([2%N], Link [1%N])] in
+  zip_wfb f = true /\ zip_link_above f [2%N; 3%N] = true /\
+  fs_mkdir_all [2%N; 3%N] f = None /\
+  Go.mkdir_all (zip_tree f) [2%N; 3%N] = Go.Ok (([1%N; 3%N], Gt.Dir) :: zip_tree f).
+Proof. exact FSAgreeDiffer.zip_link_above_differ. Qed.
+Print Assumptions zip_link_above_differs.
